@@ -23,17 +23,17 @@ type AssertRec struct {
 }
 
 type Violation struct {
-	Harness  string            `json:"harness"`
-	Label    string            `json:"label"`
-	Kind     string            `json:"kind"` // assert | panic | lock-leak
-	Msg      string            `json:"msg,omitempty"`
-	Model    map[string]string `json:"model"`
-	Classes  []string          `json:"classes"`        // classes true in this model
-	Known    string            `json:"known,omitempty"` // known-finding id matched
-	Notes    []string          `json:"notes,omitempty"`
-	Path     string            `json:"path"`
-	Choices  []int             `json:"choices,omitempty"`
-	Confirm  string            `json:"confirm,omitempty"`
+	Harness string            `json:"harness"`
+	Label   string            `json:"label"`
+	Kind    string            `json:"kind"` // assert | panic | lock-leak
+	Msg     string            `json:"msg,omitempty"`
+	Model   map[string]string `json:"model"`
+	Classes []string          `json:"classes"`         // classes true in this model
+	Known   string            `json:"known,omitempty"` // known-finding id matched
+	Notes   []string          `json:"notes,omitempty"`
+	Path    string            `json:"path"`
+	Choices []int             `json:"choices,omitempty"`
+	Confirm string            `json:"confirm,omitempty"`
 }
 
 type pathRecord struct {
@@ -60,36 +60,36 @@ type Engine struct {
 	harness string
 
 	// per path
-	pc         []*Term
-	prefix     []bool
-	decisions  []bool
-	forced     []bool // parallel to decisions: true if the other side was infeasible
-	globals    map[*ssa.Global]*Cell
-	sentinels  map[string]Value
-	cellN      int
-	mapN       int
-	chanN      int
-	fpN        int
-	fpRound    int
-	steps      int
-	maxSteps   int
-	depth      int
-	symCount   map[string]int
-	inputs     []*Term
-	inputNames map[string]bool
-	classes    []classRec
-	notes      []string
-	reached    []string
-	locks      map[*Cell]*lockSt
-	syncMaps   map[*Cell]*MapVal
-	pending    []goroutine
-	goRuns     int
-	rangeConds []*Term
-	skippedGo  map[string]int
-	inexact    bool
-	choices    []int
-	mapOrder   func(m *MapVal, snap []*mapEntry) []*mapEntry
-	gob        *gobState
+	pc           []*Term
+	prefix       []bool
+	decisions    []bool
+	forced       []bool // parallel to decisions: true if the other side was infeasible
+	globals      map[*ssa.Global]*Cell
+	sentinels    map[string]Value
+	cellN        int
+	mapN         int
+	chanN        int
+	fpN          int
+	fpRound      int
+	steps        int
+	maxSteps     int
+	depth        int
+	symCount     map[string]int
+	inputs       []*Term
+	inputNames   map[string]bool
+	classes      []classRec
+	notes        []string
+	reached      []string
+	locks        map[*Cell]*lockSt
+	syncMaps     map[*Cell]*MapVal
+	pending      []goroutine
+	goRuns       int
+	rangeConds   []*Term
+	skippedGo    map[string]int
+	inexact      bool
+	choices      []int
+	mapOrder     func(m *MapVal, snap []*mapEntry) []*mapEntry
+	gob          *gobState
 	hashConcLens map[int]bool
 	hashSymLens  map[int]bool
 	hashAlwaysUF bool
@@ -97,18 +97,18 @@ type Engine struct {
 	ev *eventCtx // event mode (L2), nil in sequential mode
 
 	// across paths
-	work       [][]bool
-	paths      []pathRecord
-	asserts    map[string]*AssertRec
-	reachAll   map[string]int
-	violations []Violation
-	known      []KnownFinding
-	fnTouched  map[*ssa.Function]map[int]bool
-	endCounts  map[string]int
+	work          [][]bool
+	paths         []pathRecord
+	asserts       map[string]*AssertRec
+	reachAll      map[string]int
+	violations    []Violation
+	known         []KnownFinding
+	fnTouched     map[*ssa.Function]map[int]bool
+	endCounts     map[string]int
 	overflowPaths int
-	maxPaths   int
-	samples    int
-	stubsUsed  map[string]int
+	maxPaths      int
+	samples       int
+	stubsUsed     map[string]int
 }
 
 type KnownFinding struct {
